@@ -3,7 +3,7 @@
    helper registration are decided by the check on the real planner (every emitted sub-request is validated by the
    receiving evaluating fake against ITS OWN schema; coverage/helpers through C01's single-server equality). *)
 From Coq Require Import List String Bool Arith.
-From Pebbles Require Import Base.Json Plan.Vars Plan.VarsProofs.
+From Pebbles Require Import Base.Json Plan.Vars Plan.VarsProofs Plan.Header Plan.HeaderProofs.
 Import ListNotations.
 Open Scope string_scope.
 
@@ -38,6 +38,31 @@ Theorem C02_client_id_refuted :
     assoc "id" (step_variables client_vars listed node_id) = Some (JStr "h1").
 Proof. exact client_variable_named_id_is_replaced. Qed.
 
+(* ---- the operation header synthesised for a sub-request (format.walkArgumentList) ----
+   On a selection set carrying the validator's annotations (wt: every value with children knows its type, every
+   variable its expected type), the header's writes are exactly the (variable, expected type) pairs of the body: *)
+Theorem header_is_the_bodys_variables : forall ts ss n t,
+  wt ts ss = true -> (In (n, t) (walk ts ss) <-> In (n, t) (positions ss)).
+Proof. exact walk_is_positions. Qed.
+(* so every variable the body uses in an argument — at any depth of lists and input objects — is declared, with the
+   type one of its positions expects ... *)
+Theorem header_declares_every_used_variable : forall ts ss n t,
+  wt ts ss = true -> In (n, t) (positions ss) ->
+  exists t', header_declares ts ss n = Some t' /\ In (n, t') (positions ss).
+Proof. exact every_used_variable_is_declared. Qed.
+(* ... and nothing the body does not use is declared *)
+Theorem header_declares_only_used_variables : forall ts ss n t,
+  wt ts ss = true -> header_declares ts ss n = Some t -> In (n, t) (positions ss).
+Proof. exact only_used_variables_are_declared. Qed.
+(* the hypothesis matters: a value with children but without the annotation is skipped, variables and all *)
+Theorem C02_header_needs_annotations :
+  exists ts ss, positions ss = [("v", "String")] /\ header_declares ts ss "v" = None /\ wt ts ss = false.
+Proof. eexists. eexists. exact unannotated_value_is_skipped. Qed.
+Example c02_header_nonvacuous :
+  wt ex_types ex_sels = true /\
+  map (header_declares ex_types ex_sels) ["a"; "b"; "c"; "d"; "e"] = [Some "String"; Some "String!"; Some "Int"; Some "Int"; None].
+Proof. exact ex_header. Qed.
+
 Example c02_nonvacuous :
   variables_list [SField "a" "f" [("x", VVar "v1"); ("o", VObj [("k", VList [VVar "v2"; VLit "3"])])] []
                          [SInline "T" [] [SField "g" "g" [("y", VVar "v3")] [] []]]]
@@ -50,3 +75,7 @@ Print Assumptions forwarded_values_unchanged.
 Print Assumptions C02_vars_refuted.
 Print Assumptions follow_up_steps_keep_other_variables.
 Print Assumptions C02_client_id_refuted.
+Print Assumptions header_is_the_bodys_variables.
+Print Assumptions header_declares_every_used_variable.
+Print Assumptions header_declares_only_used_variables.
+Print Assumptions C02_header_needs_annotations.
